@@ -60,6 +60,10 @@ var fixedRegexes = []string{
 	"^", "$", "^a", "a$", "^$", "\\b", "\\B", "\\s", "\\s*", "\\S+", "\\w+", "\\pL", "\\p{L}+", "\\p{M}", "\\PL",
 	"a|b", "a|é|漢", "(a|b)*", "(?:a|b)+", ".*", ".*?", ".+?", "\\n", "(?m)^", "(?m)$", "(?m)^.", " ", "[^\\n]*",
 	"(a*)(b*)", "(a*)*", "(|a)+", "b*?", "(?i:é)", "漢|(?<k>😀)", "(?<a1>a)(?<a2>\\x{301})?",
+	// repeated alternations of groups: a group keeps the capture of an EARLIER iteration, so a
+	// higher-numbered group may lie before a lower-numbered one (capture offsets are not monotone)
+	"(?:(a)|(b))*", "(?:(b)|(a))+", "((é)|(b))+", "(?:(a)|(b)|(é))+", "(?:(?<p>😀)|(?<q>a))*", "((a)|(漢)|(😀))*",
+	"(?:(a)|(.))+", "(?:(\\x{301})|(.))*", "(?:(a)?(b)?)*", "(?:(?<n>é)|(?<m>漢)|(b))+a?",
 }
 
 // random regexes from a small grammar (filtered by regexp.Compile)
@@ -82,6 +86,14 @@ func genRegex(r *common.Rand, depth int) string {
 	case 6:
 		return "(?P<" + common.Pick(r, []string{"n", "m", "y"}) + ">" + genRegex(r, depth-1) + ")" + common.Pick(r, []string{"", "?"})
 	case 7:
+		if r.Intn(3) == 0 {
+			// repeated alternation of capture groups (stale captures of earlier iterations)
+			alts := []string{}
+			for i, n := 0, 2+r.Intn(2); i < n; i++ {
+				alts = append(alts, "("+genRegex(r, depth-1)+")")
+			}
+			return common.Pick(r, []string{"(?:", "("}) + strings.Join(alts, "|") + ")" + common.Pick(r, []string{"*", "+", "{2,3}"})
+		}
 		return common.Pick(r, atoms[:17]) + common.Pick(r, []string{"*", "?", "+", "*?", "{0,2}"})
 	default:
 		return common.Pick(r, atoms)
